@@ -19,6 +19,8 @@ pub enum Line
     True(String),
     /// `false <tag>`
     False(String),
+    /// `kill -KILL $$ <tag>`: the line's shell dies from a signal (no exit code)
+    Kill(String),
 }
 
 impl Line
@@ -31,6 +33,7 @@ impl Line
             Line::ChmodX(p) => format!("chmod +x {}", p),
             Line::True(tag) => format!("true {}", tag),
             Line::False(tag) => format!("false {}", tag),
+            Line::Kill(_tag) => "kill -KILL $$".to_string(),
         }
     }
 }
@@ -93,14 +96,20 @@ impl RuleSpec
 
     pub fn render(&self) -> String
     {
+        self.render_spelled(false)
+    }
+
+    /// `flat`: write `dir/file` on one line; otherwise as a tab-indented bundle.  Both spell the
+    /// same rule (same identity), but the parser yields the targets in a different order.
+    pub fn render_spelled(&self, flat: bool) -> String
+    {
         let mut s = String::new();
-        // a path with a directory part is written as a tab-indented bundle
         for t in &self.targets
         {
             match t.find('/')
             {
-                Some(i) => { s.push_str(&t[..i]); s.push_str("\n\t"); s.push_str(&t[i + 1..]); s.push('\n'); },
-                None => { s.push_str(t); s.push('\n'); },
+                Some(i) if !flat => { s.push_str(&t[..i]); s.push_str("\n\t"); s.push_str(&t[i + 1..]); s.push('\n'); },
+                _ => { s.push_str(t); s.push('\n'); },
             }
         }
         s.push_str(":\n");
@@ -115,6 +124,11 @@ impl RuleSpec
 pub fn render_rules(rules: &RuleSet) -> String
 {
     rules.iter().map(|r| r.render()).collect::<Vec<_>>().join("\n")
+}
+
+pub fn render_rules_spelled(rules: &RuleSet, flat: bool) -> String
+{
+    rules.iter().map(|r| r.render_spelled(flat)).collect::<Vec<_>>().join("\n")
 }
 
 /// Convenience constructors --------------------------------------------------
@@ -319,7 +333,7 @@ pub fn eval(rules: &RuleSet, fs: &Fs) -> Eval
             match line
             {
                 Line::True(_) => {},
-                Line::False(_) => errored = true,
+                Line::False(_) | Line::Kill(_) => errored = true,
                 Line::ChmodX(p) =>
                 {
                     match produced.get_mut(p)
